@@ -355,6 +355,13 @@ def _k1(ctx):
     fw = [c for c in w.calls("_make_pmappings")]
     ok = bool(fw) and all(any(k.arg is None for k in c.keywords) for c in fw) and w.node.args.kwarg is not None and not w.node.args.args
     ctx.check(ok, R, w, w.node.body[-1], "the cached wrapper does not forward exactly its keyword arguments", "wrapper(**kwargs) -> _make_pmappings(**kwargs)")
+    # nothing is taken out of the key dict on the way, and the wrapper forwards nothing it closed over
+    shrink = [c for c in mk.calls(into_nested=True) if isinstance(c.func, ast.Attribute) and norm(c.func.value) == "kwargs" and c.func.attr in ("pop", "popitem", "clear")]
+    shrink += [d for d in mk.walk(into_nested=True) if isinstance(d, ast.Delete) and any("kwargs" in norm(t) for t in d.targets)]
+    ctx.check(not shrink, R, mk, shrink[0] if shrink else st, f"`{norm(shrink[0])[:70] if shrink else ''}` removes arguments from the dict that forms the cache key: a cache hit then returns pmappings computed for another value of that argument",
+              "key dict not shrunk before the cached call")
+    extra = [k for c in fw for k in c.keywords if k.arg is None and norm(k.value) != (w.node.args.kwarg.arg if w.node.args.kwarg else "")] + [k for c in fw for k in c.keywords if k.arg is not None]
+    ctx.check(not extra, R, w, fw[0] if fw else w.node, "the cached wrapper passes arguments that are not part of its own (hashed) keyword arguments", "wrapper forwards only its own keyword arguments")
     # _make_pmappings reads no mutable module global other than through parameters
     glob = set()
     m = ctx.module(MAIN)
@@ -437,6 +444,7 @@ MP = "accelforge/mapper/FFM/_make_pmappings/make_pmappings.py"
 CP = "accelforge/mapper/FFM/_join_pmappings/compress_pmappings.py"
 MTS = "accelforge/mapper/FFM/_make_pmappings/make_pmappings_from_templates/make_tile_shapes.py"
 VARIANTS = [
+    {"kind": "F", "name": "flags-popped-out-of-the-cache-key", "rule": "C20-K1", "edits": [(MAIN, "            return _make_pmappings(**kwargs)\n", "            return _make_pmappings(**kwargs, **unhashed)\n"), (MAIN, "        @mem.cache", "        unhashed = {k: kwargs.pop(k) for k in (\"print_progress\", \"one_pbar_only\", \"can_combine_multiple_runs\")}\n\n        @mem.cache")]},
     {"kind": "F", "name": "dirty-prune-in-place", "rule": "C20-W2", "edits": [("accelforge/mapper/FFM/_join_pmappings/join_pmappings.py", "                resource_usage_tolerance=resource_usage_tolerance,\n                inplace=False,\n            ),", "                resource_usage_tolerance=resource_usage_tolerance,\n            ),")]},
     {"kind": "F", "name": "reintroduce-unordered-extend", "rule": "C20-U1", "edits": [
         (MP, '        pbar=f"Generating pmappings" if print_progress or one_pbar_only else None,\n    ):',
